@@ -7,6 +7,7 @@ The driver takes no decision.  Every public call (constructor, structure, unstru
 event, logged at its return (also on the error path) with everything it returned.
 """
 import json
+import os
 import sys
 
 from . import pyside
@@ -274,6 +275,10 @@ def norm_table(model_path):
 CHUNK_BYTES = 8 * 1024 * 1024
 
 
+# what a replay needs to reproduce the process the session ran in
+RUN_ENV = {"cfg": os.environ.get("VERIF_CONV_CFG", "default"), "hs": os.environ.get("PYTHONHASHSEED", "0")}
+
+
 def main(argv):
     """states file -> trace chunk files <out>.<n> (bounded size, so that TLC's JsonDeserialize
     never sees a huge document); prints one JSON line describing the chunks."""
@@ -299,6 +304,7 @@ def main(argv):
         for s in r.sessions_for(st):
             n += 1
             s["sid"] = len(cur) + 1
+            s["env"] = RUN_ENV
             by_kind[s["sk"]] = by_kind.get(s["sk"], 0) + 1
             nev = len(s["ev"])
             txt = json.dumps(s, ensure_ascii=False)
